@@ -1,3 +1,154 @@
+/-
+  Driver.X02 — runs the X02 models (Golib.Ext.*) on operation lines.  Text travels as the hex of its
+  bytes (`-` = empty); lists are comma separated (`-` = empty list); pairs are `k:v`.
+
+    PT <text> <sb> <eb> <nil|pairs> <p>   → <keys> <ToStringMap(nil)> <ToStringMap(map)> <ToStringStr(p)> | diverges
+    SA <args> <key> <defStr> <defInt> <defLong> <defBool>
+                                          → <tags pairs> <param pairs> <param2: k:v|k:! per key> <HasKey> <Get> <GetInt> <GetLong> <GetBoolean> <Get2|panic>
+    URL <text>                            → <Protocol> <Host> <RawPath> <Path> <RawPort> <Port> <RawQuery> <Query> <File> <String> <HostPort> <Domain> <DomainPath>
+    C <dyn>                               → <CInt> <CLong> <CDouble> <CFloat> <CBool> <CString>
+                                            dyn = nil | s:<hex> | i64:<n> | int:<n> | i32:<n> | f64:<bits> | f32:<bits> | b:0|1 | bv:0|1 | bvnil
+    SC <n>                                → Scale(n)
+    RS <float64 bits> <scale>             → bits of RoundScale (Lean Float = IEEE double; `skip` when value*Scale is not within int64)
+    RI <v> <scale>                        → roundScaleInt
+    HC <v>                                → INT.HashCode
+    TS <text>                             → strings.TrimSpace
+    AT <text>                             → <Atoi value> <ok 0|1>
+    SB <ops>                              → <per op 1 (returned) | 0 (panic)> <ToString>
+                                            op = a:<hex> Append | l: AppendLine | i: AppendLineIndent | c: AppendLineClose | k: AppendClose | m: AppendComment | x:- Clear
+-/
+import Golib.Ext.ParamText
+import Golib.Ext.ShellArg
+import Golib.Ext.UrlUtil
+import Golib.Ext.CastMath
+import Golib.Ext.StrBuf
 import Driver.Common
-/-! Driver of the extension check X02 (placeholder until the model exists). -/
-def main : IO Unit := pure ()
+
+open Drv
+
+def hx (s : String) : Option Bytes := ofHex s
+
+def pairOf (s : String) : Option (Bytes × Bytes) :=
+  match s.splitOn ":" with
+  | [a, b] => do let x ← hx a; let y ← hx b; pure (x, y)
+  | _ => none
+
+def showPairs (l : List (Bytes × Bytes)) : String :=
+  listOf (fun (e : Bytes × Bytes) => hexOf e.1 ++ ":" ++ hexOf e.2) l
+
+def bit (b : Bool) : String := if b then "1" else "0"
+
+def parseDyn (s : String) : Option Ext.Cast.Dyn :=
+  match s.splitOn ":" with
+  | ["nil"] => some .nil
+  | ["bvnil"] => some .boolValNil
+  | ["s", h] => (hx h).map .str
+  | ["i64", n] => (parseInt n).map .i64
+  | ["int", n] => (parseInt n).map .int
+  | ["i32", n] => (parseInt n).map .i32
+  | ["f64", n] => (parseNat n).map .f64
+  | ["f32", n] => (parseNat n).map .f32
+  | ["b", n] => some (.bool (n == "1"))
+  | ["bv", n] => some (.boolVal (n == "1"))
+  | _ => none
+
+def showF : Ext.Cast.FRes → String
+  | .bits b => s!"bits:{b}"
+  | .parse _ => "parse"
+  | .narrow _ => "narrow"
+
+def showS : Ext.Cast.SRes → String
+  | .text s => "t:" ++ hexOf s
+  | .fmtFloat _ => "fmt"
+
+/-- RoundScale with the machine's IEEE double arithmetic (not part of any theorem) -/
+def roundScaleF (bits : UInt64) (sc : Int) : String :=
+  let v := Float.ofBits bits
+  let r : Float := Float.ofInt (Ext.Cast.scale sc)
+  let x := if sc == 0 then v else v * r
+  if x.isNaN || x ≥ 9223372036854775807.0 || x ≤ -9223372036854775808.0 then "skip" else
+  let t : Float := (x.toInt64).toFloat
+  let res := if sc == 0 then t else t / r
+  toString res.toBits
+
+def sbOp (s : String) : Option Ext.StrBuf.Op :=
+  match s.splitOn ":" with
+  | ["a", h] => (hx h).map .append
+  | ["l", h] => (hx h).map .appendLine
+  | ["i", h] => (hx h).map .appendLineIndent
+  | ["c", h] => (hx h).map .appendLineClose
+  | ["k", h] => (hx h).map .appendClose
+  | ["m", h] => (hx h).map .appendComment
+  | ["x", _] => some .clear
+  | _ => none
+
+def answer (line : String) : String :=
+  match line.splitOn " " with
+  | ["PT", text, sb, eb, mp, p] =>
+    match hx text, hx sb, hx eb, hx p with
+    | some text, some sb, some eb, some p =>
+      let m : Option (Option (List (Bytes × Bytes))) :=
+        if mp == "nil" then some none else (parseList pairOf mp).map some
+      match m with
+      | none => "bad-op"
+      | some m =>
+        match Ext.ParamText.parse sb eb text with
+        | none => "diverges"
+        | some ts =>
+          let ks := listOf hexOf (Ext.ParamText.keys ts)
+          s!"{ks} {hexOf (Ext.ParamText.toStringMap sb eb none ts)} {hexOf (Ext.ParamText.toStringMap sb eb m ts)} {hexOf (Ext.ParamText.toStringStr p ts)}"
+    | _, _, _, _ => "bad-op"
+  | ["SA", args, key, ds, di, dl, db] =>
+    match parseList hx args, hx key, hx ds, parseInt di, parseInt dl with
+    | some args, some key, some ds, some di, some dl =>
+      let s := Ext.ShellArg.parse args
+      let p2 := listOf (fun (k : Bytes) =>
+        hexOf k ++ ":" ++ (match Ext.ShellArg.get2 s k with | some v => hexOf v | none => "!")) (Ext.ShellArg.keysOf s)
+      let g2 := match Ext.ShellArg.get2 s key with | some v => hexOf v | none => "panic"
+      s!"{showPairs s.tags} {showPairs s.param} {p2} {bit (Ext.ShellArg.hasKey s key)} {hexOf (Ext.ShellArg.getStr s key ds)} {Ext.ShellArg.getInt s key di} {Ext.ShellArg.getLong s key dl} {bit (Ext.ShellArg.getBool s key (db == "1"))} {g2}"
+    | _, _, _, _, _ => "bad-op"
+  | ["URL", u] =>
+    match hx u with
+    | some u =>
+      let x := Ext.Url.process u
+      s!"{hexOf x.proto} {hexOf x.host} {hexOf x.rawPath} {hexOf x.path} {hexOf x.rawPort} {x.port} {hexOf x.rawQuery} {hexOf x.query} {hexOf x.file} {hexOf (Ext.Url.toString x)} {hexOf (Ext.Url.hostPort x)} {hexOf (Ext.Url.domain x)} {hexOf (Ext.Url.domainPath x)}"
+    | none => "bad-op"
+  | ["C", d] =>
+    match parseDyn d with
+    | some d =>
+      s!"{Ext.Cast.cInt d} {Ext.Cast.cLong d} {showF (Ext.Cast.cDouble d)} {showF (Ext.Cast.cFloat d)} {bit (Ext.Cast.cBool d)} {showS (Ext.Cast.cString d)}"
+    | none => "bad-op"
+  | ["SC", n] =>
+    match parseInt n with
+    | some n => s!"{Ext.Cast.scale n}"
+    | none => "bad-op"
+  | ["RS", b, sc] =>
+    match parseNat b, parseInt sc with
+    | some b, some sc => roundScaleF (UInt64.ofNat b) sc
+    | _, _ => "bad-op"
+  | ["RI", v, sc] =>
+    match parseInt v, parseInt sc with
+    | some v, some sc => s!"{Ext.Cast.roundScaleInt v sc}"
+    | _, _ => "bad-op"
+  | ["HC", v] =>
+    match parseInt v with
+    | some v => s!"{Ext.Cast.intHashCode v}"
+    | none => "bad-op"
+  | ["TS", t] =>
+    match hx t with
+    | some t => hexOf (Ext.Str.trimSpace t)
+    | none => "bad-op"
+  | ["AT", t] =>
+    match hx t with
+    | some t => let r := Ext.Str.atoi t; s!"{r.1} {bit r.2}"
+    | none => "bad-op"
+  | ["SB", ops] =>
+    match parseList sbOp ops with
+    | some ops =>
+      let r := Ext.StrBuf.run {} ops
+      let flags := if r.2.isEmpty then "-" else String.ofList (r.2.map (fun b => if b then '1' else '0'))
+      s!"{flags} {hexOf r.1.buf}"
+    | none => "bad-op"
+  | _ => "bad-op"
+
+def main : IO Unit := statelessLoop answer
